@@ -1066,6 +1066,25 @@ def mon_c02_threads(spec, run):
 MONITORS["C02t"] = mon_c02_threads
 
 
+def first_connection_only(trace):
+    """events of the first connection of a two-connection scenario (the second one's threads are R2 / S2, its port and device are tagged)"""
+    out = []
+    for e in trace:
+        if e.get("dev") == 2 or e["th"] in ("R2", "S2") or e["k"].endswith("2"):
+            continue
+        if e["k"] in ("call", "ret") and isinstance(e.get("op"), list) and e["op"] and str(e["op"][0]).endswith("2"):
+            continue
+        out.append(e)
+    return out
+
+
+def mon_c13_two(spec, run):
+    return mon_c13(spec, _SubRun(run, first_connection_only(run.trace)))
+
+
+MONITORS["C13two"] = mon_c13_two
+
+
 class _SubRun:
     def __init__(self, run, trace):
         self.trace, self.results, self.now, self.status = trace, run.results, run.now, run.status
